@@ -5,23 +5,27 @@ CONFIG = dict(
     drv="drv_c14",
     lean_modules=["MahfModel.Props.C14"],
     namespaces=["MahfModel.Props.C14"],
-    shrink_lists=["pop"],
+    shrink_lists=["pop", "stack"],
     level="proof",
     rule=("boundary repair: domains [-1,1), [0,10), [-5,-2), [1e-3,1e6); every operator (Saturation, Toroidal, Mirror, "
-          "CompleteOneTailedNormalCorrection) through the real Component::execute on a State holding one population of a "
-          "Sphere-like LimitedVectorProblem, applied twice; (1) one coordinate per case for every point of the bound "
+          "CompleteOneTailedNormalCorrection) through the real Component::execute on a State holding a population stack of a "
+          "LimitedVectorProblem, applied twice; (1) one coordinate per case for every point of the bound "
           "neighbourhood {a, b, next_up/next_down of each} and of the grid {a - k*d, b + k*d : k in 0.25,0.5,1,1.5,2,7,1e3,1e6} "
           "(the resampling operator with 6 quick / 48 thorough seeds each); (2) seeded populations of 1..3 individuals of "
           "dimension 1..4 whose coordinates are all of one kind (bound / grid / random up to 1e3 widths away / inside); (2b) the same "
           "on problems whose range DIFFERS per dimension ([0,1)x[10,20)x[-5,-4), ...), every coordinate judged against its own range; (3) huge "
           "finite coordinates (+-1e17, +-1e300, +-f64::MAX, 1e22, 2^53+1, ...) and the neighbourhood of Mirror's fold (the thresholds a-d, b+d and "
           "their floating-point neighbours; whole periods 2kd from either bound, k up to 1e6, and their neighbours; remainders near 0, d, 2d), "
-          "alone and inside populations over per-dimension different ranges — ordinary cases: every operator must return, in bounds. Every case runs in a worker process under a 2 s watchdog; a case "
-          "that does not answer is re-run once in a fresh worker before it counts as `timeout`. Initialisers (Empty, RandomSpread, "
-          "RandomPermutation, RandomBitstring) for sizes 0..6, dimensions 0..6, the four domains and per-dimension different ranges, probabilities {0,0.25,0.5,1}, "
-          "stack heights 0..2 and 2 quick / 6 thorough seeds. A case is non-trivial if it is a boundary case with a coordinate "
-          "outside or on a bound, or an initialiser case with n >= 1 and dim >= 1; distinct = distinct canonical input."),
-    nontrivial=lambda inp: (inp.startswith("(bnd") and "inside" not in inp) or
+          "alone and inside populations over per-dimension different ranges - ordinary cases: every operator must return, in bounds; (3b) dimensions "
+          "5..33 and populations of up to 40 individuals with the kinds MIXED per coordinate; (3c) population STACKS of height 1..4 (and the empty stack) "
+          "whose lower populations hold out-of-bounds coordinates as well, populations of 0..3 individuals: every population is printed after each "
+          "application, only the current one may change; (3d) f64::rem_euclid itself on a special-value grid and random pairs against the model's exact "
+          "integer computation. Every case runs in a worker process under a 2 s watchdog; a case "
+          "that does not answer is re-run once in a fresh worker before it counts as `timeout`. Initialisers (Empty, RandomSpread over f64 and over usize, "
+          "RandomPermutation, RandomBitstring incl. new_uniform) for sizes 0..6, dimensions 0..6, the four domains and per-dimension different ranges, probabilities {0,0.25,0.5,1}, "
+          "stack heights 0..2 and 2 quick / 6 thorough seeds, plus sizes 255, 256, 257, 1000, 65537 and dimensions 64, 257, 1000. A case is non-trivial if it is a boundary case with a coordinate "
+          "outside or on a bound, a rem_euclid case, or an initialiser case with n >= 1 and dim >= 1; distinct = distinct canonical input."),
+    nontrivial=lambda inp: (inp.startswith("(bnd") and "inside" not in inp and "empty-stack" not in inp) or inp.startswith("(rem") or
                            (inp.startswith("(init") and re.match(r"\(init \w+ [1-9]\d* [1-9]", inp) is not None),
     trusted_base=[
         "f64 arithmetic of the model = Lean's native Float (IEEE binary64 +,-,*,/,floor); f64::rem_euclid (fmod) is computed exactly on the decoded "
@@ -29,10 +33,14 @@ CONFIG = dict(
         "theorems are in exact arithmetic over an ordered field",
         "rand's gen_range / shuffle / Bernoulli / Normal samplers are not modelled: their results are explicit witnesses "
         "(RandomSpread: gen_range's contract a <= x < b is checked on every generated coordinate); the resampling operator's "
-        "absolute standard-normal deviates come from a twin generator with the same seed (the model scales them by (b-a)/3 per coordinate)",
+        "absolute standard-normal deviates are a witness: first those of a twin generator with the same seed (the model scales them by (b-a)/3 per "
+        "coordinate and must reproduce the output), otherwise deviates read off the output (legal iff non-negative and reproducing it in one pass)",
         "watchdog: 2 s wall clock per case in a separate worker process"],
     assumptions=["SplitMix64-seeded generator; mahf's Random seeded ChaCha12 per case",
-                 "in-bounds oracle: closed bounds with 4 ulp slack on the bound arithmetic; inside-unchanged and idempotence are bit-exact"],
+                 "in-bounds oracle: closed bounds with 4 ulp slack on the bound arithmetic; inside-unchanged is bit-exact; idempotence is bit-exact "
+                 "for every coordinate that is exactly inside after the first application (one within the slack must stay within the slack); "
+                 "populations below the current one must come back bit-identical",
+                 "model-vs-code comparison of repaired coordinates: relative 1e-9, or absolute 1e-9 of the magnitude of the coordinate's bounds"],
     timeout_quick=900,
 )
 CONFIG.update(
@@ -42,7 +50,12 @@ CONFIG.update(
                 "coordinate after at most one pass of its loop (mirror_terminates, mirror_returns), computes the triangle wave of period 2(b-a) "
                 "(mirror_closed_form), which is exactly what step-by-step reflection returns (mirror_agrees_with_stepwise; that needs "
                 "ceil(|x-a|/(b-a)) passes, mirror_stepwise_terminates), and within one width of the domain the fold is not taken at all "
-                "(mirror_near_is_stepwise); "
+                "(mirror_near_is_stepwise); at the level of whole solutions each operator yields a `Repaired` solution (same dimension, coordinate k within "
+                "dom[k], equal to the input where that was inside: *_solution_repaired) and returns an all-inside solution unchanged without touching "
+                "the random source (operators_fix_inside_solutions); the driver boundary_constraint is in the model (boundaryConstraint: last population "
+                "of the stack, every solution in order, shared random source, panic on the empty stack) with boundary_constraint_frame and, per operator, "
+                "saturation_/toroidal_/mirror_/onetailed_population: it returns (Mirror: for every population, fuel 1), the stack below is returned as it was, "
+                "every solution of the current population is Repaired, and a second application changes nothing; "
                 "the resampling loop exits on any deviate <= b-a; every operator keeps the dimension; initialisers push exactly one "
                 "population of n unevaluated individuals of the problem's dimension, in-domain given gen_range's contract, "
                 "permutations for every legal shuffle witness. Tied to /repo by running the real components on the grid under a "
